@@ -53,6 +53,10 @@ def gen(rng, ctx):
         if not isout:
             parent["edges"].append([w, rng.choice(multi)])
         holes.append(w)
+    if rng.random() < 0.2:
+        # tie-offs of every kind (a connection map must never land a child output on one of them)
+        for j in range(rng.randint(1, 2)):
+            parent["nodes"].append([f"tie{j}", rng.choice(["0", "1", "x"]), True])
     scan = False
     if rng.random() < 0.3:
         # an instance whose pin names contain each other (D/SD, Q/QN): ignore_pins given as a plain string
@@ -117,6 +121,20 @@ def gen(rng, ctx):
             nodes_now += [f"{name}_{n}" for n, _, _ in children[ci]["nodes"]]
     if rng.random() < 0.5:
         ign = rng.choice([None, None, "p", ["p", "o"], "a0", ["a1"]])
+        if scan and rng.random() < 0.25:
+            # the net feeding an ignored pin already carries the name that pin would have been given (sc0_CK -> sc0.CK):
+            # legal, because an ignored pin is deleted, not renamed
+            pin = rng.choice(["CK", "SE"])
+            drv = [u for u, v in parent["edges"] if v == f"sc0.{pin}"]
+            tp = G.cd_types(parent)
+            if drv and "." not in drv[0] and tp[drv[0]] in G.ALL_GATES + ["input"] and f"sc0_{pin}" not in tp:
+                ren = {drv[0]: f"sc0_{pin}"}
+                parent = G.cd_rename(parent, ren)
+                for op in ops:
+                    if "connections" in op:
+                        op["connections"] = {k: ren.get(v, v) for k, v in op["connections"].items()}
+                ops.append({"op": "strip_blackboxes", "ignore_pins": rng.choice([pin, [pin], [pin, "QN"]])})
+                return {"parent": parent, "children": children, "ops": ops, "via": rng.choice(["graph", "api"]), "probe_rejected": False, "ignored_pin_name_taken": True}
         if scan:
             ign = rng.choice(["SD", "QN", "CK", ["SD"], ["QN", "SE"], None, "D", ["D"], ["Q"], ["D", "Q"], ["E", "K"]])  # D/SD, Q/QN: an ignored name that is the tail of another pin name
         ops.append({"op": "strip_blackboxes", "ignore_pins": ign})
@@ -221,6 +239,8 @@ def check(case, ctx):
             ctx.count("cmp:structural")
             if ign:
                 ctx.count("strip_with_ignore")
+            if case.get("ignored_pin_name_taken"):
+                ctx.count("net_named_like_an_ignored_pin")
             if isinstance(ign, str) and any(p != ign and (p in ign) for _, bi, bo in before.bbs.values() for p in bi | bo):
                 ctx.count("strip_str_ignore_with_substring_pins")
             if before.bbs:
@@ -249,6 +269,19 @@ def check(case, ctx):
                 pn = Net.of(c)
                 if okp or not isinstance(rp, ValueError):
                     ctx.violation("conflicting_connections_accepted", f"{what}: two child outputs mapped onto {holes_now[0]!r} were accepted ({rp!r})")
+                    return
+                if pn.types != before_net.types or pn.edges() != before_net.edges() or pn.bbs != before_net.bbs:
+                    ctx.violation("rejected_call_changed_parent", f"{what}: the refused add_subcircuit left nodes/edges behind: {sorted(set(pn.types) - set(before_net.types))[:4]}")
+                    return
+            ties = sorted(n for n, t in before_net.types.items() if t in ("0", "1", "x"))
+            if case.get("probe_rejected") and pure_outs and ties:
+                # a child output mapped onto a constant (0 / 1 / x): sources cannot be driven, the call must be refused
+                tgt = ties[len(pure_outs) % len(ties)]
+                okp, rp = ctx.call(c.add_subcircuit, kid, name + "_probe", {pure_outs[0]: tgt})
+                ctx.count(f"output_onto_constant_probe:{before_net.types[tgt]}")
+                pn = Net.of(c)
+                if okp or not isinstance(rp, ValueError):
+                    ctx.violation("driven_constant_accepted", f"{what}: child output {pure_outs[0]!r} mapped onto the `{before_net.types[tgt]}` node {tgt!r} was accepted ({rp!r})")
                     return
                 if pn.types != before_net.types or pn.edges() != before_net.edges() or pn.bbs != before_net.bbs:
                     ctx.violation("rejected_call_changed_parent", f"{what}: the refused add_subcircuit left nodes/edges behind: {sorted(set(pn.types) - set(before_net.types))[:4]}")
@@ -372,5 +405,5 @@ def check(case, ctx):
 
 
 def gates(counters, table, tier):
-    need = ["conflicting_connections_probe", "swapped_direction_fill_probe", "strip_result_edit_probe", "rejected_call_probe", "strip_str_ignore_with_substring_pins", "child_with_feedthrough_port", "instance_name_is_prefix_of_another", "op:add_subcircuit", "op:add_blackbox", "op:fill_blackbox", "op:strip_blackboxes", "partial_connections", "child_with_nested_blackbox", "fill_after_other_calls", "fill_immediately", "same_child_instantiated_twice", "strip_with_ignore", "strip_with_blackboxes", "functional_checks", "add_subcircuit_strip_io_false", "strip_ignore_pins_as:tuple", "strip_ignore_pins_as:set"]
+    need = ["conflicting_connections_probe", "swapped_direction_fill_probe", "strip_result_edit_probe", "rejected_call_probe", "strip_str_ignore_with_substring_pins", "child_with_feedthrough_port", "instance_name_is_prefix_of_another", "op:add_subcircuit", "op:add_blackbox", "op:fill_blackbox", "op:strip_blackboxes", "partial_connections", "child_with_nested_blackbox", "fill_after_other_calls", "fill_immediately", "same_child_instantiated_twice", "strip_with_ignore", "strip_with_blackboxes", "functional_checks", "add_subcircuit_strip_io_false", "strip_ignore_pins_as:tuple", "strip_ignore_pins_as:set", "net_named_like_an_ignored_pin", "output_onto_constant_probe:x", "output_onto_constant_probe:0"]
     return [f"{k} seen {counters.get(k, 0)} times" for k in need if counters.get(k, 0) < 5]
